@@ -816,7 +816,7 @@ def convolve_templates(
         # Time reverse the template (for convolution)
         temp_pad = np.roll(temp_pad[::-1], 1)
         temp_norm = normalize_template(temp_pad)
-        conv = np.fft.irfft(data_fft * np.fft.rfft(temp_norm))
+        conv = np.fft.irfft(data_fft * np.fft.rfft(temp_norm), len(data_pad))
         convs[itemp, :] = conv[:nbins]
     return convs
 
